@@ -91,6 +91,11 @@ static void rx_stop(void)
 		RX->stop_index = RX->n;
 	}
 }
+static uint64_t rx_rng_hash(void)
+{
+	const uint64_t *st = current_lp->rng_ctx->state;
+	return vm_mix(vm_mix(st[0], st[1]), vm_mix(st[2], st[3]));
+}
 static uint64_t last_h;
 static bool last_pred, got_event;
 static void rx_on_event(uint64_t me, double now, unsigned type, const void *pl, unsigned size, uint64_t h_after, bool pred)
@@ -109,9 +114,8 @@ static void rx_on_init(uint64_t me, uint64_t h_after, bool pred)
 static const struct vm_env rx_env = {
     .schedule = rx_schedule, .alloc = rx_alloc, .realloc_ = rx_realloc, .free_ = rx_free, .set_state = rx_set_state,
     .u64 = rx_u64, .random = rx_random, .expent = rx_expent, .normal = rx_normal, .gamma = rx_gamma, .zipf = rx_zipf,
-    .range = rx_range, .stop = rx_stop, .on_event = rx_on_event, .on_init = rx_on_init, .on_fini = NULL};
+    .range = rx_range, .stop = rx_stop, .rng_hash = rx_rng_hash, .on_event = rx_on_event, .on_init = rx_on_init, .on_fini = NULL};
 
-extern __thread struct lp_ctx *current_lp;
 
 void rx_run(struct rx_result *out, uint64_t prng_seed)
 {
@@ -168,7 +172,7 @@ void rx_run(struct rx_result *out, uint64_t prng_seed)
 			e->h_after = last_h;
 			e->pred_after = last_pred;
 		} else {
-			e->h_after = vm_state_digest(rx_state[m->dest]);
+			e->h_after = vm_full_digest(rx_state[m->dest]);
 			e->pred_after = vm_can_end(m->dest, rx_state[m->dest]);
 		}
 		unsigned k = out->per_lp_n[m->dest]++;
@@ -189,7 +193,9 @@ void rx_run(struct rx_result *out, uint64_t prng_seed)
 	}
 	out->all_pred_hold = true;
 	for(unsigned i = 0; i < VM.n_lps; ++i) {
-		out->h_final[i] = vm_state_digest(rx_state[i]);
+		cur_lp = i;
+		current_lp = &rx_lp[i];
+		out->h_final[i] = vm_full_digest(rx_state[i]);
 		if(out->first_true[i] == -2)
 			out->all_pred_hold = false;
 		struct vm_state *s = rx_state[i];
